@@ -428,6 +428,14 @@ class Powertrain:
                 f"{min(self.time)} - {max(self.time)}."
             )
 
+        # the check above compares with a tolerance: a target expressed in
+        # another unit may exceed the simulated interval by a rounding error
+        simulated_seconds = [instant.to('sec').value for instant in self.time]
+        target_seconds = min(
+            max(target_time.to('sec').value, min(simulated_seconds)),
+            max(simulated_seconds)
+        )
+
         if variables is not None:
             if not isinstance(variables, list):
                 raise TypeError("Parameter 'variables' must be a list.")
@@ -550,7 +558,7 @@ class Powertrain:
                     )
                     data.loc[element.name, f'{variable} ({unit})'] = \
                         interpolation_function(
-                        target_time.to('sec').value
+                        target_seconds
                     ).take(0)
 
             if isinstance(element, MotorBase):
@@ -560,7 +568,7 @@ class Powertrain:
                         y=element.time_variables['pwm']
                     )
                     data.loc[element.name, 'pwm'] = interpolation_function(
-                        target_time.to('sec').value
+                        target_seconds
                     ).take(0)
 
                 if 'electric current' in variables:
@@ -580,7 +588,7 @@ class Powertrain:
                             element.name,
                             f'electric current ({current_unit})'
                         ] = interpolation_function(
-                            target_time.to('sec').value
+                            target_seconds
                         ).take(0)
 
             if isinstance(element, GearBase | WormGear):
@@ -612,7 +620,7 @@ class Powertrain:
                         element.name,
                         f'{variable} ({unit})'
                     ] = interpolation_function(
-                        target_time.to('sec').value
+                        target_seconds
                     ).take(0)
 
         if print_data:
